@@ -10,8 +10,11 @@ import argparse, fcntl, glob, hashlib, json, os, re, resource, shutil, signal, s
 VERIF = os.path.dirname(os.path.dirname(os.path.abspath(__file__)))
 REPO = os.environ.get('VERIF_REPO', '/repo')
 REPO_GO = os.path.join(REPO, 'go')
-BUILD = os.path.join(VERIF, 'build')
+BUILD = os.environ.get('VERIF_BUILD') or os.path.join(VERIF, 'build')
 HARNESS = os.path.join(VERIF, 'harness')
+# runs against a scratch copy of the repository (mutation trials) keep their evidence and replays
+# out of /verif/evidence and /verif/replays
+OUT = BUILD if os.environ.get('VERIF_REPO') else VERIF
 GO_CANDIDATES = [
     '/root/go/pkg/mod/golang.org/toolchain@v0.0.1-go1.26.2.linux-amd64/bin/go',
     '/usr/local/bin/go1.26.8', '/opt/veriftools/go1.26.8/bin/go',
@@ -41,8 +44,15 @@ def go_env():
 
 
 def load_registry():
+    """harness/registry.json plus every harness/registry.d/*.json (engines and properties are merged)."""
     with open(os.path.join(HARNESS, 'registry.json')) as f:
-        return json.load(f)
+        reg = json.load(f)
+    for fn in sorted(glob.glob(os.path.join(HARNESS, 'registry.d', '*.json'))):
+        with open(fn) as f:
+            part = json.load(f)
+        for k in ('engines', 'properties', 'not_applicable'):
+            reg.setdefault(k, {}).update(part.get(k) or {})
+    return reg
 
 
 class Lock:
@@ -99,18 +109,28 @@ def prepare_build(reg):
                 if line.strip() and line not in have and (line.startswith('pgregory.net/rapid ') or line.startswith('github.com/anishathalye/porcupine ')):
                     s += line + '\n'
         write_atomic(cur, s)
-        repl = {}
-        for name, eng in reg['engines'].items():
-            d = os.path.join(VERIF, eng['dir'])
-            for fn in sorted(os.listdir(d)):
-                if not fn.endswith('.go'):
+        libs = {n: e for n, e in reg['engines'].items() if e.get('lib')}
+        for ename, e in reg['engines'].items():
+            if e.get('lib'):
+                continue
+            repl = {}
+            group = dict(libs)
+            group[ename] = e
+            for also in e.get('with', []):  # other engines' files compiled into the same binary
+                group[also] = reg['engines'][also]
+            for name, eng in group.items():
+                d = os.path.join(VERIF, eng['dir'])
+                if not os.path.isdir(d):
                     continue
-                if eng.get('virtual'):
-                    dst = os.path.join(REPO_GO, eng['pkg'], fn)
-                else:
-                    dst = os.path.join(REPO_GO, eng['pkg'], 'zz_verif_' + fn)
-                repl[dst] = os.path.join(d, fn)
-        write_atomic(os.path.join(BUILD, 'overlay.json'), json.dumps({'Replace': repl}, indent=1, sort_keys=True))
+                for fn in sorted(os.listdir(d)):
+                    if not fn.endswith('.go'):
+                        continue
+                    if eng.get('virtual'):
+                        dst = os.path.join(REPO_GO, eng['pkg'], fn)
+                    else:
+                        dst = os.path.join(REPO_GO, eng['pkg'], 'zz_verif_' + fn)
+                    repl[dst] = os.path.join(d, fn)
+            write_atomic(os.path.join(BUILD, 'overlay.%s.json' % ename), json.dumps({'Replace': repl}, indent=1, sort_keys=True))
 
 
 def build_engine(reg, name, race=False, fuzz=None, quiet=False):
@@ -118,7 +138,7 @@ def build_engine(reg, name, race=False, fuzz=None, quiet=False):
     eng = reg['engines'][name]
     suffix = ('.race' if race else '') + (('.fuzz' if fuzz else ''))
     out = os.path.join(BUILD, 'bin', name + suffix + '.test')
-    cmd = [find_go(), 'test', '-modfile=' + os.path.join(BUILD, 'go.mod'), '-overlay=' + os.path.join(BUILD, 'overlay.json'),
+    cmd = [find_go(), 'test', '-modfile=' + os.path.join(BUILD, 'go.mod'), '-overlay=' + os.path.join(BUILD, 'overlay.%s.json' % name),
            '-vet=off', '-c', '-o', out]
     if race:
         cmd.append('-race')
@@ -323,7 +343,7 @@ def validate_evidence(ev):
 
 
 def save_replay(pid, fail, shard, out, run):
-    d = os.path.join(VERIF, 'replays', pid)
+    d = os.path.join(OUT, 'replays', pid)
     os.makedirs(d, exist_ok=True)
     stamp = time.strftime('%Y%m%d-%H%M%S')
     test = fail.get('test', 'unknown')
@@ -482,9 +502,9 @@ def main(argv):
         everrs = validate_evidence(ev)
         floor = int((prop.get('floor') or {}).get(tier, 2))
         if not a.only:
-            os.makedirs(os.path.join(VERIF, 'evidence'), exist_ok=True)
+            os.makedirs(os.path.join(OUT, 'evidence'), exist_ok=True)
             if not everrs or viol_paths:
-                write_atomic(os.path.join(VERIF, 'evidence', pid + '.json'), json.dumps(ev, indent=1, sort_keys=True) + '\n')
+                write_atomic(os.path.join(OUT, 'evidence', pid + '.json'), json.dumps(ev, indent=1, sort_keys=True) + '\n')
         c = ev['coverage']
         log('[%s %s seed=%d] evaluations=%d distinct_nontrivial=%d (floor %d) wall=%.1fs' % (pid, tier, seed, c['evaluations'], c['distinct_nontrivial'], floor, wall))
         if viol_paths:
